@@ -266,7 +266,7 @@ def labels(d):
 def engines():
     return [
         Engine("fast-models", judge, strategy=cases(["ZNCC", "NCC", "PCC"]), nontrivial=nontrivial, labels=labels,
-               cases={"quick": 360, "thorough": 12000}, shards={"quick": 8, "thorough": 16}),
+               cases={"quick": 720, "thorough": 12000}, shards={"quick": 16, "thorough": 16}),
         Engine("fsc", judge, strategy=cases(["FSC"]), nontrivial=nontrivial, labels=labels,
                cases={"quick": 64, "thorough": 1600}, shards={"quick": 8, "thorough": 16}),
     ]
